@@ -30,6 +30,9 @@ type SimContext struct {
 	CancelAt  int64 // fire when Clock > CancelAt; <0 = never
 	FiredAt   int64 // value of Ticks when it fired
 	Deadline0 bool  // report DeadlineExceeded rather than Canceled
+	// FarDeadline: Deadline() reports a deadline an hour away (a context made
+	// with a long timeout and cancelled early; cancellation must still win)
+	FarDeadline bool
 
 	// TicksAfter / PollsAfter count what happened after the cancellation.
 	TicksAfter int64
@@ -268,8 +271,15 @@ func (c *SimContext) Err() error {
 	return c.err
 }
 
+var processStart = time.Now()
+
 // Deadline implements context.Context.
-func (c *SimContext) Deadline() (time.Time, bool) { return time.Time{}, false }
+func (c *SimContext) Deadline() (time.Time, bool) {
+	if c.FarDeadline {
+		return processStart.Add(time.Hour), true
+	}
+	return time.Time{}, false
+}
 
 // Value implements context.Context.
 func (c *SimContext) Value(key interface{}) interface{} { return nil }
